@@ -444,7 +444,8 @@ async fn run(lines: Vec<String>, out: &mut Out) {
 	module.merge(Api0Server::into_rpc(Impl(log.clone()))).unwrap();
 	module.merge(Api1Server::into_rpc(Impl(log.clone()))).unwrap();
 	let (stop, handle) = stop_channel();
-	let svc = Server::builder().set_config(ServerConfig::builder().build()).to_service_builder().build(module.clone(), stop);
+	// the name-resolution probes leave subscriptions open on purpose: no cap on this one long-lived connection
+	let svc = Server::builder().set_config(ServerConfig::builder().max_subscriptions_per_connection(u32::MAX).build()).to_service_builder().build(module.clone(), stop);
 	let (c, s) = tokio::io::duplex(1 << 22);
 	let h2 = handle.clone();
 	tokio::spawn(async move {
